@@ -368,7 +368,8 @@ impl Node {
                     })?;
                     let var_update_path_tree =
                         w.declare_var_on_top_scope_init(|w, var_update_path_tree| {
-                            write!(w, "C?!0:W[{}]", gen_lit_str(slot_value_name))?;
+                            // (no trees are supplied to content of anything but a dynamic-slots component)
+                            write!(w, "C||!W?!0:W[{}]", gen_lit_str(slot_value_name))?;
                             Ok(var_update_path_tree)
                         })?;
                     var_slot_map.insert(slot_value_name.clone(), (var_scope, var_update_path_tree));
